@@ -566,9 +566,6 @@ func oracleC07ios(c *Case) Verdict {
 	if early != nil {
 		return *early
 	}
-	if r.refusal != nil {
-		return discard("refused-by-model")
-	}
 	sc := iosm.ScopeOf(r.b)
 	prot := r.a.Protected(sc)
 	frame := r.a.FrameText(sc)
@@ -583,6 +580,9 @@ func oracleC07ios(c *Case) Verdict {
 	}
 	ctx := func() string { return iosCtx(c, r) + "--- protected set\n" + strings.Join(keys, " ") + "\n" }
 	for i, st := range r.states {
+		if r.refusal != nil && i >= r.refStep {
+			break // states from the refused step on did not come about
+		}
 		for _, k := range keys {
 			txt, ok := st.ObjText(k)
 			if !ok {
@@ -598,6 +598,26 @@ func oracleC07ios(c *Case) Verdict {
 			return fail("ios:frame-changed", "step %d (%s) changes unmanaged interfaces/routes/lines\n--- before\n%s\n--- after\n%s\n%s",
 				i+1, strings.Join(r.steps[i], " \\N "), frame, f, ctx())
 		}
+	}
+	if r.refusal != nil {
+		// A removal that the device model refuses is C08's business,
+		// unless it aims at an object outside Netspoc's scope: the attempt
+		// itself is then what C07 forbids (IOS proper would carry it out:
+		// it deletes an ACL that an interface still names).
+		if strings.HasPrefix(r.refCmd, "no ") {
+			names := map[string]bool{}
+			for _, k := range keys {
+				_, n, _ := strings.Cut(k, ":")
+				names[n] = true
+			}
+			for _, w := range strings.Fields(r.refCmd) {
+				if names[w] {
+					return fail("ios:protected-delete-attempted", "step %d (%s) tries to remove %s, which is outside Netspoc's scope (the device model refuses: %s)\n%s",
+						r.refStep+1, r.refCmd, w, r.refusal.Msg, ctx())
+				}
+			}
+		}
+		return discard("refused-by-model")
 	}
 	nt := len(r.steps) > 0 && len(keys) > 0
 	return pass(nt, iosClasses(r)...)
